@@ -6,6 +6,7 @@ import (
 	"fmt"
 	"io"
 	"reflect"
+	"strings"
 	"testing"
 
 	"github.com/maruel/panicparse/v2/stack"
@@ -72,14 +73,40 @@ type c10Ctx struct {
 	t          int // offset at which the first terminating line ends; -1: none
 	tStart     int // where that line starts
 	uncut      *stack.Snapshot
-	ends       []int // absolute end offset of each goroutine's text
-	hdrEnds    []int // absolute end offset of each goroutine's header line
-	starts     []int // absolute start offset of each goroutine's header line
-	firstLines int   // absolute end offset of the dump's first line (race: first two lines)
+	uncutGuess *stack.Snapshot // the uncut stream parsed with path guessing on
+	ends       []int           // absolute end offset of each goroutine's text
+	hdrEnds    []int           // absolute end offset of each goroutine's header line
+	starts     []int           // absolute start offset of each goroutine's header line
+	firstLines int             // absolute end offset of the dump's first line (race: first two lines)
 	race       bool
 }
 
-func c10Prepare(s *StreamM) (*c10Ctx, error) {
+func guessOpts() *stack.Opts { return &stack.Opts{GuessPaths: true} }
+
+// resolveFix replaces the fixture placeholder in file names by the real directory.
+func resolveFix(s *StreamM) StreamM {
+	out := *s
+	out.Items = append([]Item{}, s.Items...)
+	for i := range out.Items {
+		if d := out.Items[i].Dump; d != nil {
+			nd := *d
+			nd.Gs = append([]GM{}, d.Gs...)
+			for gi := range nd.Gs {
+				nd.Gs[gi].Frames = cloneFrames(nd.Gs[gi].Frames)
+				for fi := range nd.Gs[gi].Frames {
+					f := &nd.Gs[gi].Frames[fi]
+					f.File = strings.ReplaceAll(f.File, "@FIX@", fixtureDir())
+				}
+			}
+			out.Items[i].Dump = &nd
+		}
+	}
+	return out
+}
+
+func c10Prepare(s0 *StreamM) (*c10Ctx, error) {
+	rs := resolveFix(s0)
+	s := &rs
 	it := &s.Items[0]
 	ctx := &c10Ctx{x: s.Bytes(), pre: s.Pre, race: it.Race != nil}
 	ctx.a = len(s.Pre)
@@ -140,7 +167,30 @@ func c10Prepare(s *StreamM) (*c10Ctx, error) {
 		return nil, fmt.Errorf("uncut stream: %v", e)
 	}
 	ctx.uncut = u
+	ug, _, err := stack.ScanSnapshot(bytes.NewReader(ctx.x), io.Discard, guessOpts())
+	if ug == nil || (err != nil && err != io.EOF) {
+		return nil, fmt.Errorf("uncut stream with path guessing: snapshot=%v err=%v", ug != nil, err)
+	}
+	ctx.uncutGuess = ug
 	return ctx, nil
+}
+
+// ref is what complete goroutines are compared with. Root detection is global to a snapshot
+// (a later goroutine's files decide how earlier frames resolve), so with path guessing on the
+// uncut stream is no sound reference for a cut one; the same delivered bytes ending in a plain
+// EOF are: how the cut is signalled must not change what was parsed before it.
+func (ctx *c10Ctx) ref(o *stack.Opts, c int, finished bool) *stack.Snapshot {
+	if !o.GuessPaths {
+		return ctx.uncut
+	}
+	if finished {
+		return ctx.uncutGuess
+	}
+	s, _, _ := stack.ScanSnapshot(bytes.NewReader(ctx.x[:c]), io.Discard, o)
+	if s == nil {
+		return &stack.Snapshot{}
+	}
+	return s
 }
 
 // lineStartAt: is offset o the start of a line of x (or the end of x)?
@@ -188,7 +238,7 @@ func (ctx *c10Ctx) checkCut(c, mode int, opts *stack.Opts) (kfcut bool, err erro
 		if opts.NameArguments {
 			eraseNames(got)
 		}
-		if !reflect.DeepEqual(got, ctx.uncut.Goroutines) {
+		if !reflect.DeepEqual(got, ctx.ref(opts, c, true).Goroutines) {
 			return false, fmt.Errorf("snapshot differs from the uncut stream's")
 		}
 		return false, nil
@@ -245,6 +295,7 @@ func (ctx *c10Ctx) checkCut(c, mode int, opts *stack.Opts) (kfcut bool, err erro
 	if len(got) < minG || len(got) > j+2 {
 		return kfcut, fmt.Errorf("%d goroutines returned; %d headers were complete, %d had started", len(got), minG, j+1)
 	}
+	ref := ctx.ref(opts, c, false)
 	for i := 0; i < len(got) && i < len(ctx.ends); i++ {
 		complete := ctx.ends[i] <= c
 		// The goroutine being read at the cut: the last started one, whose following line is cut.
@@ -254,8 +305,8 @@ func (ctx *c10Ctx) checkCut(c, mode int, opts *stack.Opts) (kfcut bool, err erro
 			beingRead = beingRead || !complete
 		}
 		if complete && !beingRead {
-			if !reflect.DeepEqual(got[i], ctx.uncut.Goroutines[i]) {
-				return kfcut, fmt.Errorf("goroutine %d (id %d) lay entirely before the cut but differs from the uncut parse", i, ctx.uncut.Goroutines[i].ID)
+			if refG := ref.Goroutines; i >= len(refG) || !reflect.DeepEqual(got[i], refG[i]) {
+				return kfcut, fmt.Errorf("goroutine %d (id %d) lay entirely before the cut but differs from the uncut parse (path guessing=%v)", i, ctx.uncut.Goroutines[i].ID, opts.GuessPaths)
 			}
 		} else if got[i].ID != ctx.uncut.Goroutines[i].ID && i < j {
 			return kfcut, fmt.Errorf("goroutine %d has id %d, uncut parse has %d", i, got[i].ID, ctx.uncut.Goroutines[i].ID)
@@ -273,13 +324,13 @@ func c10Oracle(c c10Case) error {
 	}
 	st := statsFor("C10")
 	check := func(off, mode int) error {
-		for _, o := range []*stack.Opts{plainOpts(), {NameArguments: true}} {
+		for _, o := range []*stack.Opts{plainOpts(), {NameArguments: true}, guessOpts()} {
 			kf, e := ctx.checkCut(off, mode, o)
 			if kf {
 				st.excluded(1)
 			}
 			if e != nil {
-				return fmt.Errorf("cut at offset %d of %d (%s, naming=%v; dump occupies [%d,%d)): %v", off, len(ctx.x), modeNames[mode], o.NameArguments, ctx.a, ctx.b, e)
+				return fmt.Errorf("cut at offset %d of %d (%s, naming=%v, path guessing=%v; dump occupies [%d,%d)): %v", off, len(ctx.x), modeNames[mode], o.NameArguments, o.GuessPaths, ctx.a, ctx.b, e)
 			}
 		}
 		return nil
@@ -309,7 +360,19 @@ var c10 = Check[c10Case]{
 			Dump: DumpOpts{MaxG: 4, MaxFrames: 4, Variants: true, LongLines: thorough()},
 			Race: RaceOpts{MaxOps: 3, MaxFrames: 3, Args: true},
 			Junk: JunkOpts{MaxLines: 3, Binary: true}}
-		return c10Case{S: genStream(t, o), C: -1, Mode: -1}
+		s := genStream(t, o)
+		// some frames lie in a local module (the fixture tree) so that path guessing resolves them
+		if d := s.Items[0].Dump; d != nil {
+			for gi := range d.Gs {
+				for fi := range d.Gs[gi].Frames {
+					if oneIn(t, 3, "fixtureFrame") {
+						f := &d.Gs[gi].Frames[fi]
+						f.File, f.Line = "@FIX@/"+rapid.SampledFrom([]string{"main.go", "sub/x.go"}).Draw(t, "fixFile"), rapid.IntRange(1, 30).Draw(t, "fixLine")
+					}
+				}
+			}
+		}
+		return c10Case{S: s, C: -1, Mode: -1}
 	},
 	Oracle: c10Oracle,
 	Obs: func(c c10Case) Obs {
